@@ -9,7 +9,8 @@
 (*   ok         the document parses and denotes exactly Describe(ts, opts)    *)
 (*   known D    every difference is a string fact that today's printer        *)
 (*              (Sdl!TodayToken) cannot round-trip (its trigger), or the      *)
-(*              document does not parse and ts contains such a string, or a   *)
+(*              document does not parse (or parses to something else because  *)
+(*              such a string is not even one token) and ts contains it, or a *)
 (*              structural named deviation                                    *)
 (*   violation  anything else (including any panic)                           *)
 EXTENDS Sdl, Json, IOUtils
@@ -35,6 +36,8 @@ Verdict(c) ==
   ELSE
     LET E == Describe(c.ts, c.opts)
         broken == {e \in E : Broken(e, c.opts)}
+        \* today's token for e is not even one string token: where it ends, and so the rest of the document, is unpredictable
+        lexBroken == {e \in broken : ~Denote(TodayToken(e, c.opts)).ok}
     IN IF c.parse_error # ""
        THEN IF broken # {} THEN <<"known", {DevOf(e, c.opts) : e \in broken}, <<>>>>
             ELSE IF c.static_dev # "" THEN <<"known", {c.static_dev}, <<>>>>
@@ -54,6 +57,7 @@ Verdict(c) ==
                  THEN <<"known", {DevOf(e, c.opts) : e \in {b \in broken : Key(b) \in {Key(x) : x \in diff}}}
                                  \cup (IF dropped # {} THEN {"DevDynInterfaceImplementsDropped"} ELSE {})
                                  \cup (IF dirdoc # {} THEN {"DevDirectiveArgDescriptionDropped"} ELSE {}), <<>>>>
+            ELSE IF lexBroken # {} THEN <<"known", {DevOf(e, c.opts) : e \in lexBroken}, <<>>>>
             ELSE LET u == CHOOSE u \in unexplained : TRUE
                  IN <<"violation", {}, <<IF u \in missing THEN "missing" ELSE "extra", u.t, u.f, u.a, u.what, u.s>>>>
 
